@@ -183,7 +183,9 @@ func (c *Case) Files(o BuildOpts) []*loader.BufferedFile {
 			panic("dependency tree too deep")
 		}
 		add(prefix+"Chart.yaml", chartYAML(name, def))
-		add(prefix+"values.yaml", yamlOf(Tree(def.Defaults)))
+		if len(def.Defaults) > 0 { // a chart without default values has no values.yaml
+			add(prefix+"values.yaml", yamlOf(Tree(def.Defaults)))
+		}
 		if len(def.Schema) > 0 {
 			add(prefix+"values.schema.json", string(SchemaJSON(def.Schema)))
 		}
@@ -191,9 +193,11 @@ func (c *Case) Files(o BuildOpts) []*loader.BufferedFile {
 		if o.Lookup && prefix == "" {
 			pre = lookupLine
 		}
-		add(prefix+"templates/probe.yaml", fmt.Sprintf(probeTpl, pre))
-		add(prefix+"templates/hook.yaml", hookTpl)
-		add(prefix+"templates/NOTES.txt", notesTpl)
+		if !def.NoTpl {
+			add(prefix+"templates/probe.yaml", fmt.Sprintf(probeTpl, pre))
+			add(prefix+"templates/hook.yaml", hookTpl)
+			add(prefix+"templates/NOTES.txt", notesTpl)
+		}
 		if def.Crds {
 			// the CRD is named after the chart DIRECTORY it ships in (root-mid-leaf.verif.example), so that a CRD
 			// found in the cluster can be attributed to the chart object that contributed it
